@@ -170,6 +170,17 @@ CLAIMED['C07'] = dict(
     note='Effects are recognised syntactically (del d[k] and d.pop(k) are equivalent); schedules are a runtime matter.',
     ref='DESIGN.md section 3, C07')
 
+CLAIMED['C13'] = dict(
+    technique='branch-table extraction + regex-AST classification (re._parser) + CFG precedence rules',
+    text='Static: the regex fragment emitted for `**`, `*` and `?` denotes, under the DOTALL wrapper, exactly any run / any run without a dot / '
+         'one character; other characters are escaped; the wrapper anchors the end and the compiled pattern is used with match(); `[!seq]` '
+         'negates and a literal leading ^ is escaped (R13.1); in System.privacyClass pattern rules are only consulted when no exact rule '
+         'matched, each scan lets the last given rule win (reversed+break or forward last-wins), the default comes from the leading '
+         'underscore / dunder test and the cache is keyed by the qualified name (R13.2); rule parsing (R13.3). Does not decide the index '
+         'arithmetic of the bracket branch nor equivalence with the documented matcher on all strings.',
+    note='Oracle: the regex parser of the interpreter running the check.',
+    ref='DESIGN.md section 3, C13')
+
 NOT_APPLICABLE = {
     'C04': 'relation between expandName results and the interpreter import system over all projects: value computations, no clause visible in the shape of the code (DESIGN.md section 5)',
     'C06': 'quantifies over processing schedules; name resolution during the AST walk is order sensitive by design, no structural bound (DESIGN.md section 5); the one structural fact (post-processing after the drain loop) is checked under C05',
